@@ -50,7 +50,12 @@ def _model(symbolic=True):
     return lin.LinearModel(n_clusters=2)
 
 
-def job_validate(m, c, B):
+RELABEL = [40, 3, 8, 1, 17, 64]   # scattered index values: CPython iterates {40, 3} as 40, 3 (not ascending), {8, 1, 3} as 8, 1, 3
+
+
+def job_validate(m, c, B, relabel=False):
+    """relabel: the symbolic end points are mapped through RELABEL before being handed over ('whatever the sample indices are':
+    large, scattered, in an order in which Python sets do not iterate them ascending)"""
     loader.install()
     res = _new()
     box = {}
@@ -64,14 +69,19 @@ def job_validate(m, c, B):
 
     def body(arg):
         mc, pts = arg
-        ml = [[pts[2 * i], pts[2 * i + 1]] for i in range(m)]
-        cl = [[pts[2 * (m + i)], pts[2 * (m + i) + 1]] for i in range(c)]
+        if relabel:
+            vv = [RELABEL[p.concretise()] for p in pts]
+            ml = [[vv[2 * i], vv[2 * i + 1]] for i in range(m)]
+            cl = [[vv[2 * (m + i)], vv[2 * (m + i) + 1]] for i in range(c)]
+        else:
+            ml = [[pts[2 * i], pts[2 * i + 1]] for i in range(m)]
+            cl = [[pts[2 * (m + i)], pts[2 * (m + i) + 1]] for i in range(c)]
         try:
             mc.add_mlcl_constraint(_model(), must_link=ml or None, cannot_link=cl or None, factor=0.5)
             raised = False
         except ValueError:
             raised = True
-        vals = [p.concretise() for p in pts]
+        vals = [(RELABEL[p.concretise()] if relabel else p.concretise()) for p in pts]
         return raised, vals
 
     ex = Explorer(max_paths=200000, max_depth=600)
@@ -257,6 +267,8 @@ def jobs(tier):
     out = [{"name": "malformed", "target": "checks.c14:job_malformed", "kwargs": {}, "timeout": 120}]
     for m, c, B in ([(1, 1, 3), (2, 1, 3), (1, 2, 2)] if q else [(1, 1, 5), (2, 1, 4), (1, 2, 3), (2, 2, 2), (3, 1, 2)]):
         out.append({"name": f"validate/m{m}c{c}B{B}", "target": "checks.c14:job_validate", "kwargs": dict(m=m, c=c, B=B), "timeout": 280 if q else 3000})
+    for m, c, B in ([(1, 1, 3), (2, 1, 2)] if q else [(1, 1, 5), (2, 1, 3), (1, 2, 3)]):
+        out.append({"name": f"validate-relabelled/m{m}c{c}B{B}", "target": "checks.c14:job_validate", "kwargs": dict(m=m, c=c, B=B, relabel=True), "timeout": 280 if q else 3000})
     pairsets = [([(0, 1)], [(2, 3)]), ([(3, 1)], [(1, 0)]), ([(0, 2), (2, 3)], []), ([], [(1, 3), (0, 2)]),
                 # one sample in the same slot of several pairs of one kind (accumulation into one row)
                 ([(0, 1), (0, 2)], []), ([], [(3, 1), (2, 1)]), ([(0, 1), (0, 2)], [(0, 3), (1, 3)])]
